@@ -312,9 +312,19 @@ func c10Run(c *mc.Ctx, pre string, cfg ref.Cfg, it ref.Item, p0 ref.V, alias int
 				fail(fmt.Sprintf("marshal-differs-in-history:step%d", step), fmt.Sprintf("bytes %s model %s", hx(data), hx(ref.EncTop(cfg, t, v).Bytes())))
 				return
 			}
+			// what the prior contents point to below a slice element must never be written: a re-used
+			// backing array is cleared first, so every decoded element gets a pointee of its own
+			var held []heldPointee
+			holdSlicePointees(target.Elem(), false, "", &held)
 			if err := p.Unmarshal(data, target.Interface()); err != nil {
 				fail("unmarshal-error", err.Error())
 				return
+			}
+			for _, h := range held {
+				if now := canon(h.ptr.Elem()); now != h.was {
+					fail("prior-pointee-written-through:"+h.path, fmt.Sprintf("the value the prior element %s pointed to was %s and is %s after decoding %s into the target", h.path, h.was, now, ref.Str(t, v)))
+					return
+				}
 			}
 			if bad := badSliceHeader(target.Elem(), ""); bad != "" {
 				fail("decoded-slice-header-corrupt", bad)
@@ -540,6 +550,50 @@ func c10CompatAppend(c *mc.Ctx) {
 					c.Outcome("ok")
 				})
 			}
+		}
+	}
+}
+
+// heldPointee is a pointer found below a slice element of a target's prior contents, with the
+// rendering of what it pointed to.
+type heldPointee struct {
+	ptr  reflect.Value
+	was  string
+	path string
+}
+
+// holdSlicePointees collects the non-nil pointers reachable from rv through at least one slice
+// element (not through map values: existing entries are merged by key, their pointees re-used).
+func holdSlicePointees(rv reflect.Value, viaSlice bool, path string, out *[]heldPointee) {
+	switch rv.Kind() {
+	case reflect.Ptr:
+		if rv.IsNil() {
+			return
+		}
+		if viaSlice {
+			// a detached copy of the pointer: rv itself is the slot, which the decode may refill
+			p := reflect.New(rv.Type()).Elem()
+			p.Set(rv)
+			*out = append(*out, heldPointee{p, canon(p.Elem()), path})
+		}
+		holdSlicePointees(rv.Elem(), viaSlice, path+"*", out)
+	case reflect.Struct:
+		for i := 0; i < rv.NumField(); i++ {
+			if rv.Type().Field(i).PkgPath == "" {
+				holdSlicePointees(rv.Field(i), viaSlice, path+"."+rv.Type().Field(i).Name, out)
+			}
+		}
+	case reflect.Slice:
+		if k := rv.Type().Elem().Kind(); k != reflect.Ptr && k != reflect.Struct && k != reflect.Slice {
+			return
+		}
+		// the whole backing array, not only the current length: stale slots are prior contents too
+		full := rv
+		if rv.Cap() > rv.Len() {
+			full = rv.Slice(0, rv.Cap())
+		}
+		for i := 0; i < full.Len(); i++ {
+			holdSlicePointees(full.Index(i), true, fmt.Sprintf("%s[%d]", path, i), out)
 		}
 	}
 }
